@@ -405,7 +405,13 @@ def session_concurrent(ctx, binary, n, rng):
                     time.sleep(0.025)
             if cli is None:
                 raise vlib.Inconclusive("cannot connect to the proxy")
-            srv, _ = up.accept()     # the proxy dials upstream as it accepts: the k-th upstream connection belongs to the k-th client
+            try:
+                srv, _ = up.accept()     # the proxy dials upstream as it accepts: the k-th upstream connection belongs to the k-th client
+            except socket.timeout:
+                # the proxy does not serve a second client while the first is connected: outside C19 (one session), noted
+                note["second_client_not_served"] = True
+                cli.close()
+                break
             cli.settimeout(0.2)
             srv.settimeout(0.2)
             conns.append(dict(cli=cli, srv=srv, c2s=client_stream(rng, "many") + client_stream(rng, "many"), s2c=b"ICY 200 OK\r\n\r\n" + bytes(rng.getrandbits(8) for _ in range(rng.randint(0, 200))),
@@ -534,7 +540,11 @@ def run(ctx, replay):
         multi["sessions"] += 1
         multi["reported"] += note["reported"]
         multi["spliced"] += note["spliced"]
+        if note.get("second_client_not_served"):
+            multi["second_client_not_served"] = True
     ctx.extra["concurrent_clients"] = multi
+    if multi.get("second_client_not_served"):
+        vlib.log("NOTE C19: a second client is not served while the first is connected (outside C19, which is stated for one session)")
     if multi["spliced"]:
         vlib.log("NOTE C19: with two clients at once %d of %d messages in the report are a splice of the two streams "
                  "(ProxyMulti.tla: ReportContiguous fails when connections overlap; outside C19, which is stated for one session)" % (multi["spliced"], multi["reported"]))
